@@ -25,9 +25,11 @@ type vfTwccScript struct {
 	Lvl   string `json:"lvl"`
 	RB    int64  `json:"rb"` // time base in 64 ms units added to every arrival time (lvl "rec")
 	Steps []struct {
-		A string `json:"a"` // "rec" | "build"
-		W uint16 `json:"w"` // transport-wide sequence number on the wire
-		T int64  `json:"t"` // arrival time offset in microseconds
+		A  string `json:"a"`  // "rec" | "build" | "recrun"
+		W  uint16 `json:"w"`  // transport-wide sequence number on the wire
+		T  int64  `json:"t"`  // arrival time offset in microseconds
+		N  int    `json:"n"`  // recrun: how many consecutive numbers
+		Dt int64  `json:"dt"` // recrun: arrival time step in microseconds (may be negative)
 	} `json:"steps"`
 }
 
@@ -183,6 +185,11 @@ func vfRunRecorder(sc *vfTwccScript, out *vfWriter) {
 		case "rec":
 			r.Record(0x55667788, st.W, base+st.T)
 			out.Emit(vfM{"a": "rec", "w": st.W, "t0": st.T, "t1": st.T})
+		case "recrun": // a long run of consecutive numbers, logged as one event
+			for i := 0; i < st.N; i++ {
+				r.Record(0x55667788, st.W+uint16(i), base+st.T+int64(i)*st.Dt) //nolint:gosec
+			}
+			out.Emit(vfM{"a": "recrun", "w": st.W, "n": st.N, "t": st.T, "dt": st.Dt})
 		case "build":
 			pkts := r.BuildFeedbackPacket()
 			out.Emit(vfM{"a": "build", "out": vfLogPackets(pkts), "fl": false})
